@@ -29,7 +29,7 @@ class Handle:
     def cancel(self):
         if not self.cancelled and not self.fired:
             self.cancelled = True
-            self.ep.log.append(("timer-cancel", self.name))
+            self.ep.log.append(("tc", self.name))
 
     def __bool__(self):
         return True
@@ -41,15 +41,20 @@ class FakeLoop:
         name = cb.__name__.lstrip("_").split("_")[0]  # t1 / t2 / t3
         h = Handle(ep, name, cb)
         ep.timers.append(h)
-        ep.log.append(("timer-start", name))
+        ep.log.append(("ts", name))
         return h
 
     def time(self):
-        return Clock.now
+        return Clock.time()
 
 
 class Clock:
-    now = 1000.0
+    """Scripted clock in ticks of 1/1024 s (exactly representable as float)."""
+    ticks = 1024000
+
+    @classmethod
+    def time(cls):
+        return cls.ticks / 1024.0
 
 
 def _ensure_future(coro):
@@ -58,7 +63,7 @@ def _ensure_future(coro):
     if name == "_send_chunk":
         name = "resend"
     ep.tasks.append((name, coro))
-    ep.log.append(("task-queued", name.lstrip("_")))
+    ep.log.append(("task", name.lstrip("_")))
     return None
 
 
@@ -67,7 +72,7 @@ _shim_asyncio = types.SimpleNamespace(
     get_event_loop=lambda: FakeLoop(),
     TimerHandle=Handle,
 )
-_shim_time = types.SimpleNamespace(time=lambda: Clock.now)
+_shim_time = types.SimpleNamespace(time=lambda: Clock.time())
 
 _RANDOM = []
 
@@ -109,6 +114,7 @@ class DtlsStub:
 
     async def _send_data(self, data):
         self.ep.outbox.append(bytes(data))
+        self.ep.log.append(("tx", bytes(data)))
 
 
 class Endpoint:
@@ -136,18 +142,24 @@ class Endpoint:
     # -- helpers -------------------------------------------------------------------------
     def _on_datachannel(self, ch):
         self._watch(ch)
-        self.events.append(("datachannel", self.channels.index(ch), ch.id, ch.label, ch.protocol, ch.ordered,
-                            ch.maxRetransmits, ch.maxPacketLifeTime))
+        ev = ("chan", self.channels.index(ch), ch.id, ch.label, ch.protocol, ch.ordered,
+              ch.maxRetransmits, ch.maxPacketLifeTime)
+        self.events.append(ev)
+        self.log.append(ev)
 
     def _watch(self, ch):
         if ch in self.channels:
             return
         self.channels.append(ch)
         i = len(self.channels) - 1
-        ch.on("open", lambda: self.events.append(("open", i)))
-        ch.on("close", lambda: self.events.append(("close", i)))
-        ch.on("bufferedamountlow", lambda: self.events.append(("low", i)))
-        ch.on("message", lambda msg: self.events.append(("message", i, msg)))
+        def rec(*ev):
+            self.events.append(ev)
+            self.log.append(ev)
+
+        ch.on("open", lambda: rec("open", i))
+        ch.on("close", lambda: rec("close", i))
+        ch.on("bufferedamountlow", lambda: rec("low", i))
+        ch.on("message", lambda msg: rec("message", i, msg))
 
     def _drive(self, coro):
         """Run a coroutine to completion; it must not suspend."""
@@ -169,14 +181,19 @@ class Endpoint:
         self.outbox = []
         self.events = []
 
-    def guard(self, fn):
-        """Run fn; record an escaping exception as a crash (what would kill the DTLS pump / a task)."""
+    def guard(self, fn, kind="crash"):
+        """Run fn; record an escaping exception: `crash` for handlers (what would kill the DTLS pump
+        or a task), `exc` for application calls (the exception is returned to the caller)."""
         try:
             fn()
         except Exception as exc:  # noqa
-            self.crashes.append(type(exc).__name__)
-            self.log.append(("crash", type(exc).__name__))
-            return type(exc).__name__
+            name = type(exc).__name__
+            if name == "error":
+                name = "struct.error"
+            if kind == "crash":
+                self.crashes.append(name)
+            self.log.append((kind, name))
+            return name
         return None
 
     # -- inputs --------------------------------------------------------------------------
@@ -204,7 +221,6 @@ class Endpoint:
     def run_task(self):
         self.begin()
         name, coro = self.tasks.pop(0)
-        self.log.append(("task-run", name.lstrip("_")))
         return self.guard(lambda: self._drive(coro))
 
     def create(self, **params):
@@ -216,22 +232,22 @@ class Endpoint:
             ch = self.m.RTCDataChannel(self.t, P)
             box.append(ch)
 
-        exc = self.guard(mk)
+        exc = self.guard(mk, "exc")
         if box:
             self._watch(box[0])
         return exc
 
     def send(self, i, data):
         self.begin()
-        return self.guard(lambda: self.channels[i].send(data))
+        return self.guard(lambda: self.channels[i].send(data), "exc")
 
     def close(self, i):
         self.begin()
-        return self.guard(lambda: self.channels[i].close())
+        return self.guard(lambda: self.channels[i].close(), "exc")
 
     def set_threshold(self, i, v):
         self.begin()
-        return self.guard(lambda: setattr(self.channels[i], "bufferedAmountLowThreshold", v))
+        return self.guard(lambda: setattr(self.channels[i], "bufferedAmountLowThreshold", v), "exc")
 
     # -- observation -----------------------------------------------------------------------
     def public(self):
